@@ -392,7 +392,11 @@ def make_model(mname, rng, source=None, gamma=None, g=None, a=None, section=None
 
 def _make_model(mname, rng, source=None, gamma=None, g=None, a=None, section=None):
     if mname == "convection":
-        a = float(a if a is not None else np.round(rng.uniform(0.2, 3.0), 3) * rng.choice([-1, 1]))
+        if a is None:
+            a = float(np.round(rng.uniform(0.2, 3.0), 3) * rng.choice([-1, 1]))
+            if rng.random() < 0.15:
+                a = float(10 ** rng.uniform(-9, 6) * rng.choice([-1, 1]))      # the SIZE of the convection speed is arbitrary too (units)
+        a = float(a)
         return conv.model(a), {"convcoef": a}
     if mname == "burgers":
         return burgers.model(), {}
